@@ -52,10 +52,16 @@ def status():
     return "\n".join(out)
 
 
+def anchors():
+    import subprocess
+    r = subprocess.run([sys.executable, os.path.join(VERIF, "tools", "anchorcoverage.py"), "--md"], capture_output=True, text=True)
+    return r.stdout.strip()
+
+
 def main():
     path = os.path.join(VERIF, "DESIGN.md")
     s = open(path).read()
-    for name, fn in (("findings", findings), ("seeded", seeded), ("status", status)):
+    for name, fn in (("findings", findings), ("seeded", seeded), ("status", status), ("anchors", anchors)):
         pat = re.compile(r"(<!-- GENERATED:%s -->\n).*?(<!-- /GENERATED:%s -->)" % (name, name), re.S)
         if not pat.search(s):
             print("marker missing:", name)
